@@ -102,4 +102,58 @@ PROPS = {
         "required_targets": {"any": ["eof_seen", "zero_length_writes", "broken_pipe"]},
         "assumptions": COMMON_ASSUMPTIONS + SIM_ASSUMPTIONS,
     },
+    "C06": {
+        "level": "exploration",
+        "jobs": {
+            "quick": [job("sim", "mux", "verif", "c06", 8)],
+            "thorough": [job("sim", "mux", "verif", "c06", 16)],
+        },
+        "required_targets": {"any": ['aborts', 'id_reuses', 'leak_probes']},
+        "assumptions": COMMON_ASSUMPTIONS + SIM_ASSUMPTIONS + ['flow tables are read through the verif_flow_ids accessor only at quiescent points (1 ms of virtual time with nothing runnable); a table entry is a leak iff neither application holds a stream with that id', 'freed ids are re-issued only at quiescent points: in-flight frames of the previous incarnation are not demanded to be harmless (the protocol has no generation numbers)', "a stream that was finished and then dropped before reading everything sends no Reset; the peer's blocked writer is then an 'absent reader' case and is not demanded to be released"],
+    },
+    "C07": {
+        "level": "exploration",
+        "jobs": {
+            "quick": [job("sim", "mux", "verif", "c07", 8)],
+            "thorough": [job("sim", "mux", "verif", "c07", 16)],
+        },
+        "required_targets": {"any": ['streams_established', 'collision_runs', 'raw_reset_runs', 'raw_bad_connect_runs', 'scripted_rng_runs']},
+        "assumptions": COMMON_ASSUMPTIONS + SIM_ASSUMPTIONS + ['flow ids come from a scripted RNG passed to Multiplexor::new_detailed; requests are matched to Connect frames through the unique target host tag'],
+    },
+    "C08": {
+        "level": "fault_enumeration",
+        "jobs": {
+            "quick": [job("sim", "mux", "verif", "c08", 8)],
+            "thorough": [job("sim", "mux", "verif", "c08", 16)],
+        },
+        "required_targets": {"any": ['faults_with_operations_pending', 'drop_flush_runs']},
+        "assumptions": COMMON_ASSUMPTIONS + SIM_ASSUMPTIONS + ['faults are injected by the in-memory WebSocket at a message index of a recorded base execution (peer Close, source EOF/error, sink error with silent or failing source, invalid frame, black-holed link + keepalive expiry with close completing or never completing)', 'a peer that is black-holed without keepalive has not ended and nothing is asserted about it; a local drop on a dead transport is not enumerated', 'the drop-flush oracle compares per flow, in order, the frames the application caused before drop(mux) with what was delivered to the peer before Close'],
+    },
+    "C11": {
+        "level": "exploration",
+        "jobs": {
+            "quick": [job("sim", "mux", "verif", "c11", 8)],
+            "thorough": [job("sim", "mux", "verif", "c11", 16)],
+        },
+        "required_targets": {"any": ['dgram_received', 'dgram_arrived_at_full_buffer']},
+        "assumptions": COMMON_ASSUMPTIONS + SIM_ASSUMPTIONS + ['loss licence is computed from the event order: every delivery that finds the (modelled) buffer full licenses one loss; the modelled occupancy is never below the real one, so the bound is never stricter than the statement', 'identity of a datagram = (flow id, port), unique per datagram by construction; payloads >= 8 bytes also carry it'],
+    },
+    "C15": {
+        "level": "exploration",
+        "jobs": {
+            "quick": [job("sim", "mux", "verif", "c15", 8)],
+            "thorough": [job("sim", "mux", "verif", "c15", 16)],
+        },
+        "required_targets": {"any": ['bind_seen', 'id_reuse_runs', 'bind_accepted']},
+        "assumptions": COMMON_ASSUMPTIONS + SIM_ASSUMPTIONS + ["a request is matched to the peer application's decision through its unique port; the decision is logged by the responder before it calls reply()/drops the request"],
+    },
+    "C16": {
+        "level": "exploration",
+        "jobs": {
+            "quick": [job("sim", "mux", "verif", "c16", 8)],
+            "thorough": [job("sim", "mux", "verif", "c16", 16)],
+        },
+        "required_targets": {"any": ['timeouts_observed', 'live_runs_to_horizon', 'pending_ops_checked']},
+        "assumptions": COMMON_ASSUMPTIONS + SIM_ASSUMPTIONS + ["all time is virtual (tokio paused clock; the TimestampProvider reads tokio's clock); timestamps are exact", "builder order is the client's (interval, then timeout); the reverse order is a recorded probe without verdict", "'never times out' is checked up to a horizon of 2000 intervals"],
+    },
 }
